@@ -74,7 +74,7 @@ def _tuple_to_float(what):
 
 
 def _encode_size(what, desc):
-    what = int(what)
+    what = int(round(what))
     exponent = _exponent_of(what, desc) & 0xF
     base = what // pow(10, exponent) & 0xF
     return base * 16 + exponent
@@ -151,6 +151,8 @@ class LOC(dns.rdata.Rdata):
         _check_coordinate_list(longitude, -180, 180)
         self.longitude = tuple(longitude)  # pyright: ignore
         self.altitude = float(altitude)
+        if round(self.altitude) < -10000000 or round(self.altitude) > 4284967295:
+            raise ValueError("altitude out of range")
         self.size = float(size)
         self.horizontal_precision = float(hprec)
         self.vertical_precision = float(vprec)
@@ -255,7 +257,7 @@ class LOC(dns.rdata.Rdata):
         t = tok.get_string()
         if t[-1] == "m":
             t = t[0:-1]
-        altitude = float(t) * 100.0  # m -> cm
+        altitude = round(float(t) * 100.0)  # m -> cm
 
         tokens = tok.get_remaining(max_tokens=3)
         if len(tokens) >= 1:
@@ -296,7 +298,7 @@ class LOC(dns.rdata.Rdata):
             + self.longitude[3]
         ) * self.longitude[4]
         longitude = 0x80000000 + milliseconds
-        altitude = int(self.altitude) + 10000000
+        altitude = int(round(self.altitude)) + 10000000
         size = _encode_size(self.size, "size")
         hprec = _encode_size(self.horizontal_precision, "horizontal precision")
         vprec = _encode_size(self.vertical_precision, "vertical precision")
